@@ -140,7 +140,9 @@ func genValueUTC(rng *core.Rng, oid uint32) any {
 			return core.Pick(rng, []time.Time{
 				time.Date(1, 1, 1, 0, 0, 0, 0, time.UTC), time.Date(9999, 12, 31, 0, 0, 0, 0, time.UTC),
 				time.Date(2000, 1, 1, 0, 0, 0, 0, time.UTC), time.Date(1999, 12, 31, 0, 0, 0, 0, time.UTC),
-				time.Date(1970, 1, 1, 0, 0, 0, 0, time.UTC), time.Date(2024, 2, 29, 0, 0, 0, 0, time.UTC)})
+				time.Date(1970, 1, 1, 0, 0, 0, 0, time.UTC), time.Date(2024, 2, 29, 0, 0, 0, 0, time.UTC),
+				// beyond the range of timestamps, within that of dates (up to 5874897-12-31)
+				time.Date(294277, 1, 1, 0, 0, 0, 0, time.UTC), time.Date(300000, 6, 15, 0, 0, 0, 0, time.UTC), time.Date(5874897, 12, 31, 0, 0, 0, 0, time.UTC), time.Date(10000, 1, 1, 0, 0, 0, 0, time.UTC)})
 		}
 		return time.Date(1+rng.Intn(9998), time.Month(1+rng.Intn(12)), 1+rng.Intn(28), 0, 0, 0, 0, time.UTC)
 	case pg.OIDTimestamp, pg.OIDTimestamptz:
